@@ -2,10 +2,12 @@
 //! `tcp::start_server` + `http::start_server`, the two tasks `Server::run` spawns) on loopback ports and talks to it with this project's own clients (`RibbitClient` for TCP v1/v2 incl. the
 //! V1 MIME checksum verification, `TactClient` for HTTP) and, for malformed requests, with raw sockets.
 //!
-//! usage: drv_ribbit --programs <file|-> --out <file|-> [--par N] [--big BYTES] [--nofile N]
+//! usage: drv_ribbit --programs <file|-> --out <file|-> [--par N] [--big BYTES] [--flood]
 //!   --par N     programs run concurrently (each has its own server, ports and server threads `srv-<index>`)
 //!   --big BYTES length of the oversized request line
-//!   --nofile N  soft limit on open descriptors of this process (family "flood": server and clients share it)
+//!   --flood     family "flood" (one program at a time): while a connection group of n sockets is open, the soft limit
+//!               on open descriptors is what is open already + n for the client ends + n/2 for the server: the
+//!               clients always get their sockets, the server's accept() runs into EMFILE after n/2 connections
 //!
 //! Program (one JSON object per line, produced by TLC from spec/mc/MC_Ribbit.tla):
 //!   {"fam":"fields",
@@ -143,6 +145,7 @@ fn db_json(prog: &Value) -> Value {
 /// them), walked by a process-wide counter; `--port-base` / `--port-span` keep concurrent driver processes apart.
 /// A port that cannot be bound is skipped; a listener that fails to bind makes its start function return an
 /// error, which is noticed below and answered by another attempt - a program never talks to another program's server.
+static FLOOD: std::sync::atomic::AtomicBool = std::sync::atomic::AtomicBool::new(false);
 static NEXT_PORT: std::sync::atomic::AtomicU32 = std::sync::atomic::AtomicU32::new(0);
 static PORT_BASE: std::sync::atomic::AtomicU32 = std::sync::atomic::AtomicU32::new(10000);
 static PORT_SPAN: std::sync::atomic::AtomicU32 = std::sync::atomic::AtomicU32::new(22000);
@@ -459,7 +462,7 @@ struct RawConn {
     socks: Vec<TcpStream>,
     /// server tick at which the group was opened
     opened: u64,
-    /// fewer sockets than asked for could be opened: the process ran out of descriptors (family "flood")
+    /// the descriptor limit was lowered for this group (family "flood")
     exhausted: bool,
 }
 
@@ -505,6 +508,7 @@ async fn run_program(idx: usize, prog: Value, big: usize, evs: Arc<Mutex<Vec<Str
     };
     let mut conns: HashMap<u64, RawConn> = HashMap::new();
     let mut seq = 0u64;
+    let base_fds = open_descriptors();
     for step in prog["steps"].as_array().expect("steps") {
         let mut ev = step.clone();
         seq += 1;
@@ -529,15 +533,30 @@ async fn run_program(idx: usize, prog: Value, big: usize, evs: Arc<Mutex<Vec<Str
                 let tr = step["tr"].as_str().expect("tr").to_string();
                 let n = step["n"].as_u64().unwrap_or(1);
                 let port = if tr == "http" { srv.http } else { srv.tcp };
-                let mut socks = vec![];
+                let flood = FLOOD.load(std::sync::atomic::Ordering::Relaxed);
+                let addr: std::net::SocketAddr = format!("127.0.0.1:{port}").parse().expect("addr");
+                // the client ends get their descriptors first (unconnected sockets) ...
+                let mut fresh = vec![];
                 for _ in 0..n {
-                    if let Ok(Ok(s)) = tokio::time::timeout(PROBE_DEADLINE, TcpStream::connect(("127.0.0.1", port))).await {
+                    if let Ok(sock) = tokio::net::TcpSocket::new_v4() {
+                        fresh.push(sock);
+                    }
+                }
+                if flood {
+                    // ... then the limit leaves room for half as many server ends: however client and server tasks
+                    // are scheduled, every connection is established (the kernel completes the handshakes) and the
+                    // server's accept() fails with EMFILE while the other half is still waiting in the backlog
+                    limit_descriptors(open_descriptors() as u64 + n / 2);
+                }
+                let mut socks = vec![];
+                for sock in fresh {
+                    if let Ok(Ok(s)) = tokio::time::timeout(PROBE_DEADLINE, sock.connect(addr)).await {
                         let _ = s.set_nodelay(true);
                         socks.push(s);
                     }
                 }
                 ev["res"] = json!({"connected": socks.len()});
-                let exhausted = (socks.len() as u64) < n;
+                let exhausted = flood;
                 conns.insert(step["c"].as_u64().expect("c"), RawConn { tr, socks, opened: srv.now(), exhausted });
             }
             "send" => {
@@ -580,9 +599,10 @@ async fn run_program(idx: usize, prog: Value, big: usize, evs: Arc<Mutex<Vec<Str
                     // next step give the server's tasks time to notice the closed sockets and release their ends
                     // (a server that never releases them keeps the table full and the following probes fail)
                     let t1 = srv.now();
-                    while open_descriptors() > 100 && srv.now() - t1 < PROBE_TICKS {
+                    while open_descriptors() > base_fds + 8 && srv.now() - t1 < PROBE_TICKS {
                         tokio::time::sleep(Duration::from_millis(50)).await;
                     }
+                    raise_descriptors();
                 }
                 ev["res"] = json!({"outs": outs});
                 ev["ms"] = json!(t0.elapsed().as_millis() as u64);
@@ -610,7 +630,7 @@ unsafe extern "C" {
     fn getrlimit(resource: i32, rlim: *mut RLimit) -> i32;
     fn setrlimit(resource: i32, rlim: *const RLimit) -> i32;
 }
-/// Lower the soft limit on open descriptors of this process (family "flood"); Linux: RLIMIT_NOFILE = 7.
+/// Set the soft limit on open descriptors of this process (family "flood"); Linux: RLIMIT_NOFILE = 7.
 fn limit_descriptors(n: u64) {
     let mut r = RLimit { cur: 0, max: 0 };
     // SAFETY: plain libc calls on a properly laid out struct rlimit (two 64-bit words on 64-bit Linux)
@@ -640,13 +660,14 @@ fn raise_descriptors() -> u64 {
 fn main() {
     install_panic_hook();
     let args: Vec<String> = std::env::args().collect();
-    let mut par_cap = usize::MAX;
-    if let Some(n) = arg(&args, "--nofile").and_then(|s| s.parse::<u64>().ok()) {
-        limit_descriptors(n);
+    let par_cap = if verif_harness::has_flag(&args, "--flood") {
+        FLOOD.store(true, std::sync::atomic::Ordering::Relaxed);
+        raise_descriptors();
+        1 // one program at a time: the limit is per process
     } else {
         // never let the driver itself run out of descriptors: fewer programs at a time on a small limit
-        par_cap = (raise_descriptors().saturating_sub(100) / 120).max(1) as usize;
-    }
+        (raise_descriptors().saturating_sub(100) / 120).max(1) as usize
+    };
     let programs = arg(&args, "--programs").map(|p| read_programs(&p)).unwrap_or_default();
     let par = (arg_u64(&args, "--par", 16) as usize).min(par_cap);
     let big = arg_u64(&args, "--big", 1 << 20) as usize;
